@@ -141,6 +141,7 @@ ALLM = [('ms', 'rk'), ('ms', 'euler'), ('ss', 'rk'), ('dc', 'rk'), ('ms', 'next'
 @register
 class C04(NlpCheck):
     pid = "C04"
+    uses_generated = True
     slices = ["constraint-rows-all-methods", "offsets", "unplaceable-rejected"]
     tags = ("user", "tpos")
     whole = True
@@ -179,6 +180,8 @@ class C04(NlpCheck):
 
     def unplaceable_slice(self):
         """a constraint on a grid the method cannot place must be rejected, not ignored"""
+        if not _c04_spline_unplaceable(self):
+            return
         n = 4 if self.tier == 'quick' else 30
         for _ in range(n):
             prof = {'methods': [('ms', 'rk'), ('ss', 'rk'), ('ms', 'euler')], 'grids': ['uniform'], 'ncons': (0, 0), 'obj_kinds': ['at_tf']}
@@ -197,6 +200,41 @@ class C04(NlpCheck):
                 self.violation("subject_to(..., grid='integrator_roots') under %s is neither placed nor rejected (ng unchanged: %d)" % (desc['method']['kind'], b.opti.g.numel()),
                                {"desc": desc}, {"kind": "unplaceable-ignored", "grid": "integrator_roots", "method": desc['method']['kind']})
                 return
+
+
+def _c04_spline_unplaceable(self):
+    """SplineMethod: every grid key subject_to accepts is either placed (rows appear) or rejected"""
+    import casadi as ca
+    rockit = B.import_rockit()
+    for grid in ('integrator_roots', 'integrator', 'control'):
+        ngs = []
+        raised = False
+        for with_con in (False, True):
+            try:
+                with B.quiet():
+                    ocp = rockit.Ocp(T=2.0)
+                    x = ocp.state()
+                    u = ocp.control()
+                    ocp.set_der(x, u)
+                    ocp.add_objective(ocp.at_tf(x) ** 2 + ocp.sum(u ** 2))
+                    ocp.subject_to(ocp.at_t0(x) == 1)
+                    if with_con:
+                        ocp.subject_to(x <= 0.5, grid=grid)
+                    ocp.method(rockit.SplineMethod(N=self.rng.randint(2, 4)))
+                    ocp.solver('ipopt', {'ipopt.print_level': 0, 'print_time': False, 'ipopt.sb': 'yes'})
+                    ocp._transcribed
+                    ngs.append(ocp._method.opti.ng)
+            except Exception:
+                raised = True
+        self.evaluations += 1
+        self.count("unplaceable:spline-%s" % grid)
+        self.signatures.add("unplaceable-spline-%s" % grid)
+        if not raised and len(ngs) == 2 and ngs[0] == ngs[1]:
+            self.slice_ok["unplaceable-rejected"] = False
+            self.violation("subject_to(..., grid='%s') under SplineMethod is neither placed nor rejected (ng unchanged: %d)" % (grid, ngs[0]),
+                           {"grid": grid}, {"kind": "unplaceable-ignored", "grid": grid, "method": "spline"})
+            return False
+    return True
 
 
 OBJK = ['at_tf', 'at_t0', 'integral', 'sum', 'sum_plus', 'int_control']
@@ -290,6 +328,7 @@ ALLGRIDS = FIXED_GRIDS + LOC_GRIDS
 @register
 class C06(NlpCheck):
     pid = "C06"
+    uses_generated = True
     slices = ["grid-rows-and-times", "minmax-options", "density-grids"]
     tags = ("grid",)
     whole = True
